@@ -37,7 +37,8 @@ class _TB:  # S2
 
 
 def apply_engine_stubs(real_traceback=False):
-    gc.ScopeVars.__init__ = _scopevars_init
+    # S1 (ScopeVars.__init__ replacement) is no longer applied: engine config E5 makes dict() of
+    # concrete arguments a real dict, so the real __init__ runs under the engine.
     if not real_traceback:
         gc.traceback = _TB
 
